@@ -171,6 +171,8 @@ def random_pick(a1: bool, b1: bool, c1: bool, d1: bool, t0: int, t1: int, t2: in
             continue
         spec.append(a)
     kw = {"tag": tag} if use_tag else {}
+    if hx.P.get('completed'):
+        m.complete()                  # post-run sampling: a finished model's environment still answers queries
     if hx.P.get('second_env'):
         # another environment of the same model (environments can be nested / created standalone) with its own resident:
         # that agent is not in THIS environment and must never be picked or listed
@@ -350,7 +352,8 @@ def obligations(tier):
         X("tag_filter", tag_filter, parts=[{"n": n} for n in (1, 3)], labels=("tag_zero_filters", "tag_matches"), timeout=600,
           encoded=enc, bounds={"tags": "all ints incl. 0 and unregistered", "filter": "None or any int"}),
         X("random_pick", random_pick, parts=[{"n": n} for n in ((0, 2, 3) if tier == "quick" else (0, 1, 2, 3, 4))] +
-          [{"n": 2, "api": True}, {"n": 3, "api": True, "nested": True}, {"n": 2, "api": True, "second_env": True}, {"n": 2, "alias": True}],
+          [{"n": 2, "api": True}, {"n": 3, "api": True, "nested": True}, {"n": 2, "api": True, "second_env": True}, {"n": 2, "alias": True},
+           {"n": 2, "completed": True}],
           labels=("none", "last_member", "filtered_pick"),
           labels_for=lambda p: ("none",) if p["n"] == 0 else ("none", "last_member", "filtered_pick"), timeout=900,
           encoded=(Environment.get_random_agent, Environment.get_agents), bounds={"draw": "any int >= 0"}),
